@@ -94,6 +94,24 @@ theorem foldl_ins_const {β : Type} (cs : List β) (hcs : cs ≠ []) (x : α) (a
       simp only [List.map_cons, List.foldl_cons] at this ⊢
       rw [this, ins_ins_same]
 
+theorem register_eq (seen xs : List α) : register seen xs = xs.foldl ins seen := rfl
+
+theorem register_nil (xs : List α) : register [] xs = firstSeen xs := rfl
+
+/-- Registering keys that are all registered already changes nothing. -/
+theorem foldl_ins_of_mem {xs acc : List α} (h : ∀ x ∈ xs, x ∈ acc) : xs.foldl ins acc = acc := by
+  induction xs with
+  | nil => rfl
+  | cons x xs ih =>
+    have hx : x ∈ acc := h x (by simp)
+    have : ins acc x = acc := by unfold ins; rw [if_pos hx]
+    rw [List.foldl_cons, this]
+    exact ih (fun y hy => h y (List.mem_cons_of_mem _ hy))
+
+theorem register_firstSeen (xs : List α) : register (firstSeen xs) xs = firstSeen xs := by
+  rw [register_eq]
+  exact foldl_ins_of_mem (fun x hx => mem_firstSeen.mpr hx)
+
 end FirstSeen
 
 /-! ### numeric folds -/
@@ -397,6 +415,36 @@ theorem lookup_map_self {β : Type} (ks : List κ) (f : κ → β) {k : κ} (hk 
       rw [this]
       exact ih (by simpa [h] using hk)
 
+/-- One call leaves `_group_keys` equal to the distinct keys of the frame and returns what it would
+return on a fresh object — whether the object is fresh or has been used on this frame before. -/
+theorem stepS_state (keyOf : ρ → κ) (cell : ρ → String → Option Int) (rows : List ρ) (st : List κ)
+    (hst : st = [] ∨ st = groupKeys keyOf rows) (op : Op) :
+    (stepS keyOf cell rows st op).1 = groupKeys keyOf rows
+    ∧ (stepS keyOf cell rows st op).2 = (stepS keyOf cell rows [] op).2 := by
+  have hstar : firstSeen ((emit keyOf (fun _ _ => some 0) ["*"] rows).map (·.1)) = groupKeys keyOf rows :=
+    firstSeen_emit_keys keyOf _ (by simp) rows
+  have hreg1 : register (groupKeys keyOf rows) (rows.map keyOf) = groupKeys keyOf rows :=
+    register_firstSeen _
+  have hreg2 : register (groupKeys keyOf rows) ((emit keyOf (fun _ _ => some 0) ["*"] rows).map (·.1))
+      = groupKeys keyOf rows := by
+    rw [register_eq]
+    apply foldl_ins_of_mem
+    intro x hx
+    rw [← hstar]
+    exact mem_firstSeen.mpr hx
+  cases op with
+  | aggregate reqs =>
+    rcases hst with rfl | rfl
+    · exact ⟨rfl, rfl⟩
+    · exact ⟨hreg1, rfl⟩
+  | groups =>
+    rcases hst with rfl | rfl
+    · exact ⟨hstar, rfl⟩
+    · refine ⟨hreg2, ?_⟩
+      show Out.keys _ = Out.keys _
+      rw [hreg2]
+      exact congrArg Out.keys hstar.symm
+
 end Core
 
 theorem mapM_length {α β : Type} (f : α → Option β) : ∀ (l : List α) (r : List β), l.mapM f = some r → r.length = l.length := by
@@ -456,6 +504,97 @@ theorem dictOf_nodup (kvs : List (String × β)) (hnd : (kvs.map (·.1)).Nodup) 
   unfold dictOf
   rw [foldl_dictSet_fresh kvs [] hnd (by simp)]
   simp
+
+theorem dictSet_keys (d : List (String × β)) (k : String) (v : β) :
+    (dictSet d k v).map (·.1) = ins (d.map (·.1)) k := by
+  induction d with
+  | nil => simp [dictSet, ins]
+  | cons kv d ih =>
+    obtain ⟨k', v'⟩ := kv
+    simp only [dictSet]
+    by_cases h : k' = k
+    · subst h
+      simp [ins]
+    · rw [if_neg h, List.map_cons, ih]
+      simp only [List.map_cons]
+      unfold ins
+      have hk : k ∈ k' :: d.map (·.1) ↔ k ∈ d.map (·.1) := by
+        simp only [List.mem_cons]
+        constructor
+        · rintro (e | e)
+          · exact absurd e.symm h
+          · exact e
+        · exact Or.inr
+      by_cases hm : k ∈ d.map (·.1)
+      · rw [if_pos hm, if_pos (hk.mpr hm)]
+      · rw [if_neg hm, if_neg (fun e => hm (hk.mp e))]
+        rfl
+
+theorem foldl_dictSet_keys (kvs acc : List (String × β)) :
+    (kvs.foldl (fun d kv => dictSet d kv.1 kv.2) acc).map (·.1)
+      = (kvs.map (·.1)).foldl ins (acc.map (·.1)) := by
+  induction kvs generalizing acc with
+  | nil => rfl
+  | cons kv kvs ih => simp only [List.foldl_cons, List.map_cons, ih, dictSet_keys]
+
+/-- The keys of a dict built by assignments: first-occurrence order, each once. -/
+theorem dictOf_keys (kvs : List (String × β)) : (dictOf kvs).map (·.1) = firstSeen (kvs.map (·.1)) := by
+  unfold dictOf
+  rw [foldl_dictSet_keys, firstSeen_eq]
+  rfl
+
+theorem dictGet_dictSet (d : List (String × β)) (k : String) (v : β) (k' : String) :
+    dictGet (dictSet d k v) k' = if k = k' then some v else dictGet d k' := by
+  induction d with
+  | nil =>
+    simp only [dictSet, dictGet, List.find?_cons, List.find?_nil]
+    by_cases h : k = k' <;> simp [h]
+  | cons kv d ih =>
+    obtain ⟨k0, v0⟩ := kv
+    simp only [dictSet]
+    by_cases h0 : k0 = k
+    · subst h0
+      rw [if_pos rfl]
+      simp only [dictGet, List.find?_cons]
+      by_cases h : k0 = k' <;> simp [h]
+    · rw [if_neg h0]
+      unfold dictGet at ih ⊢
+      simp only [List.find?_cons]
+      by_cases h1 : k0 = k'
+      · subst h1
+        simp [Ne.symm h0]
+      · simp only [h1, decide_false]
+        exact ih
+
+theorem dictGet_foldl (kvs acc : List (String × β)) (k : String) :
+    dictGet (kvs.foldl (fun d kv => dictSet d kv.1 kv.2) acc) k
+      = kvs.foldl (fun r kv => if kv.1 = k then some kv.2 else r) (dictGet acc k) := by
+  induction kvs generalizing acc with
+  | nil => rfl
+  | cons kv kvs ih => simp only [List.foldl_cons, ih, dictGet_dictSet]
+
+/-- Reading a dict: the value most recently assigned under the key. -/
+theorem dictGet_dictOf (kvs : List (String × β)) (k : String) :
+    dictGet (dictOf kvs) k = lastAssigned kvs k := by
+  unfold dictOf lastAssigned
+  rw [dictGet_foldl]
+  rfl
+
+/-- The values of a dict in key order are the values found under its keys. -/
+theorem map_snd_eq_map_get (d : List (String × β)) (hnd : (d.map (·.1)).Nodup) (dflt : β) :
+    d.map (·.2) = (d.map (·.1)).map fun k => (dictGet d k).getD dflt := by
+  induction d with
+  | nil => rfl
+  | cons kv d ih =>
+    obtain ⟨k, v⟩ := kv
+    simp only [List.map_cons, List.nodup_cons] at hnd ⊢
+    congr 1
+    · simp [dictGet]
+    · rw [ih hnd.2]
+      apply List.map_congr_left
+      intro k' hk'
+      have hne : k ≠ k' := fun e => hnd.1 (e ▸ hk')
+      simp [dictGet, hne]
 
 end Dict
 
